@@ -2,6 +2,7 @@
 (* code -> spec: frames emitted by the real library (Command.tobytes() over parameter domains *)
 (* and frames a simulated device received for every public AirConditioner operation).         *)
 (* v = [frame, kind, prev (message id of the previous command of the process or -1), ...]      *)
+(* kind "received": a frame the appliance took out of a transmission (first or repeated)       *)
 EXTENDS AcCommand, Json, IOUtils
 Vectors == JsonDeserialize(IOEnv.TRACE_FILE)
 VARIABLE i
@@ -27,6 +28,7 @@ Verdict(v) ==
         ELSE IF ~OuterSumOK(f) THEN "checksum"
         ELSE IF Crc8(Slice(f, 11, Len(f) - 2)) # FCheck(f) THEN "crc8 over body and id"
         ELSE "header / frame type")
+  ELSE IF v.kind = "received" THEN "ok"          \* what the appliance unwrapped from a (re)transmission that matches no emitted frame byte for byte: at least a command
   ELSE IF FType(f) # WantType(v.kind) THEN "frame type is not the documented one"
   ELSE IF CommandKind(f) # KindOf(v.kind) THEN "device parser classifies it as " \o CommandKind(f)
   ELSE IF v.prev >= 0 /\ FMsgId(f) # Mod(v.prev + 1, 256) THEN "message id does not advance by one modulo 256"
